@@ -188,6 +188,8 @@ def run(ctx):
                        "TLC's evaluation of the specification", "UTF-8 / byte arrays are not in the enumerated universe"]
     cfg = "Wire_values_quick.cfg" if ctx.tier == "quick" else "Wire_values_thorough.cfg"
     c02.run_cfg(ctx, "Wire", cfg, worker, "wire")
+    if ctx.tier != "quick":      # three nesting steps (outermost step from a smaller set) with the lean value sets
+        c02.run_cfg(ctx, "Wire", "Wire_values_deep.cfg", worker, "wiredeep")
     wide = [(n, s, m) for n in list(range(1, 65)) for (s, m) in ((False, "s"), (False, "t"), (True, "s")) if not (s and n < 2)]
     c02.consume(ctx, core.pmap(wide_worker, wide, chunksize=8), "wide")
     c02.consume(ctx, core.pmap(float_worker, [(n, m) for n in (16, 32, 64) for m in ("s", "t")], procs=6, chunksize=1), "float")
